@@ -63,9 +63,11 @@ def scaled_calls(cls, p, g, d, operands, rng, ints, npairs=300):
     S = 10 ** (p + g)
     geps = max(10 ** g // 2, 1) if cls == 'guarded' else 1
     base = dict(cls=cls, p=p, g=g, d=-1 if d is None else d, dEff=d_eff(cls, p, g, d), S=S, geps=geps, rnd='op', a=0, b=0, c=0, r=0, oor=False,
-                same_cls=True, flags=[False] * 6, unchanged=True, str=dict(neg=False, ip=0, fr=0, fd=0, gfr=0, gfd=0))
+                same_cls=True, twin_same=True, flags=[False] * 6, unchanged=True, str=dict(neg=False, ip=0, fr=0, fd=0, gfr=0, gfd=0))
     mk = lambda x: V(x, True)
     out = []
+    # C13: guarded with zero guard digits is indistinguishable from fixed of the same precision -- printing included
+    twin = setup('fixed', p, 0, d) if cls == 'guarded' and g == 0 else None
 
     def rec(op, rnd, a, b, c, res, flags=None):
         r = dict(base)
@@ -107,6 +109,11 @@ def scaled_calls(cls, p, g, d, operands, rng, ints, npairs=300):
         r = dict(base)
         r.update(op='str', a=a, unchanged=(A._value == a), same_cls=True)
         r['str'] = ps or dict(neg=False, ip=-1, fr=0, fd=99, gfr=0, gfd=0)
+        if twin is not None:
+            try:
+                r['twin_same'] = (str(twin(a, True)) == s0)
+            except Exception:
+                r['twin_same'] = False
         out.append(r)
         for k in ints:
             if fits(a * k, a + k * S):
@@ -146,7 +153,7 @@ def scaled_calls(cls, p, g, d, operands, rng, ints, npairs=300):
 def rational_calls(d, operands, rng, tier='quick'):
     V = setup('rational', d=d)
     base = dict(cls='rational', p=0, g=0, d=d, dEff=d, S=1, geps=1, rnd='op', a=[0, 1], b=[0, 1], c=[0, 1], r=[0, 1], oor=False,
-                same_cls=True, flags=[False] * 6, unchanged=True, str=dict(neg=False, ip=0, fr=0, fd=0, gfr=0, gfd=0))
+                same_cls=True, twin_same=True, flags=[False] * 6, unchanged=True, str=dict(neg=False, ip=0, fr=0, fd=0, gfr=0, gfd=0))
     pr = lambda x: [x.numerator, x.denominator]
     out = []
 
@@ -332,14 +339,26 @@ def all_calls(rng, tier):
         for d in (None, 0, 1, p, p + 1, p + g, p + g + 3):
             cfgs.append(('guarded', p, g, d))
     if tier == 'quick':
+        must = [('guarded', 2, 0, 1), ('guarded', 3, 0, 0), ('fixed', 3, 0, 1), ('guarded', 2, 2, 1), ('guarded', 3, 1, 4)]
         rng.shuffle(cfgs)
-        cfgs = cfgs[:14]
+        cfgs = must + [c for c in cfgs if c not in must][:11]
     for cls, p, g, d in cfgs:
         if cls == 'guarded' and p == 0 and d == 0:
             continue
         S = 10 ** (p + g)
         geps = max(10 ** g // 2, 1) if cls == 'guarded' else 1
         ops = operand_grid(S, geps, rng, 12 if tier == 'quick' else 40)
+        # printing: every display rounding boundary, approached from both sides by one unit, the tolerance, one guard unit
+        de = d_eff(cls, p, g, d)
+        if de < p + g:
+            U = 10 ** (p + g - de)
+            G = 10 ** g if cls == 'guarded' else 1
+            extra = set()
+            for k in (0, 1, -1, 2, -3, 12, -12, 9, 99):
+                for dl in (0, 1, -1, geps, -geps, geps - 1, 1 - geps, G, -G, G - 1, 1 - G):
+                    extra.add(k * U + U // 2 + dl)
+                    extra.add(k * U + dl)
+            ops = sorted(set(ops) | set(x for x in extra if abs(x) <= 45000))
         calls += scaled_calls(cls, p, g, d, ops, rng, ints, npairs=(220 if tier == 'quick' else 1500))
     fr = [Fraction(n, dn) for n in (0, 1, -1, 2, 3, -5, 7, 22, -31, 100) for dn in (1, 2, 3, 7, 10, 13)]
     for d in ((0, 3, 5) if tier == 'quick' else (0, 1, 3, 5, 6)):
